@@ -1,4 +1,4 @@
-//! Replays of RECORDED (open) findings that need the client/server stack. FAIL on the current tree by design.
+//! F-C07-b (repaired): a host name that merely contained the reserved UDP-over-TCP name started the UDP relay.
 #![allow(dead_code)]
 mod common;
 use common::{TestConfig, create_test_client, create_test_server};
@@ -21,5 +21,20 @@ async fn f_c07_b_only_the_reserved_name_selects_udp() -> anyhow::Result<()> {
     let client = create_test_client(&config).await?;
     let r = timeout(Duration::from_secs(25), client.create_proxy_stream(("files.not-udp-over-tcp.arpa.invalid".to_string(), 80))).await?;
     assert!(r.is_err(), "a TCP open for host `files.not-udp-over-tcp.arpa.invalid` was answered 'ok': the server never dialled it, it started the UDP relay because the name contains the magic substring");
+    Ok(())
+}
+
+/// ... and the reserved name itself still selects the relay (the client's own UDP path uses it)
+#[tokio::test]
+async fn f_c07_b_the_reserved_name_still_starts_the_relay() -> anyhow::Result<()> {
+    let server_port = available_port();
+    let config = TestConfig { server_addr: format!("127.0.0.1:{server_port}"), client_listen: format!("127.0.0.1:{}", available_port()), password: "replay_password".to_string() };
+    let server = create_test_server(&config).await?;
+    let server_addr = config.server_addr.clone();
+    tokio::spawn(async move { let _ = server.listen(&server_addr).await; });
+    sleep(Duration::from_millis(300)).await;
+    let client = create_test_client(&config).await?;
+    let r = timeout(Duration::from_secs(10), client.create_proxy_stream((anytls_rs::client::UDP_OVER_TCP_MAGIC_ADDR.to_string(), 0))).await?;
+    assert!(r.is_ok(), "the reserved name no longer starts the UDP relay: {:?}", r.err());
     Ok(())
 }
